@@ -311,6 +311,15 @@ package store
 //@   assert [new-upload-tee]{C01} before call Cache.Set#1: dirUploadInv(bc)
 //@   assert [upload-only-when-writable]{C14} before call Cache.Set#1: fsWritable()
 
+//@ -- C06 (and C10: both stores answer alike): a blob that was deleted is gone for every later look-up.  In a memory store
+//@ -- over a directory the nil entry is what hides the copy in the directory; without a directory the entry is dropped
+//@ func (mr *memRepo) blobDelete(d digest.Digest, locked bool) (err error)
+//@   ensures [deleted-blob-stays-hidden]{C06,C10} err == nil ==> (mr.path != "" ==> (d in mr.blobs) && mr.blobs[d] == nil) && (mr.path == "" ==> !(d in mr.blobs))
+//@ func (mr *memRepo) blobGet(d digest.Digest, locked bool) (rdr io.ReadSeekCloser, err error)
+//@   ensures [hidden-blob-is-not-served]{C06,C10} old((d in mr.blobs) && mr.blobs[d] == nil) ==> err != nil && rdr == nil
+//@ func (mr *memRepo) blobMeta(d digest.Digest, locked bool) (m blobMeta, err error)
+//@   ensures [hidden-blob-has-no-meta]{C06,C10} old((d in mr.blobs) && mr.blobs[d] == nil) ==> err != nil
+
 //@ func (mr *memRepo) blobCreate(locked bool, opts []BlobOpt) (bc BlobCreator, sessionID string, err error)
 //@   assert [new-upload-tee]{C01} before call Cache.Set#1: memUploadInv(bc)
 //@   ensures [exists-refreshes-age]{C05} err == types.ErrBlobExists ==> mr.blobs[conf.expect] != nil && mr.blobs[conf.expect].m.mod >= old(clock())
@@ -332,14 +341,31 @@ package store
 //@ funcs memRepo.*
 //@   fspath [inside-repo-dir]{C16} within(path, recv.path)
 
+//@ -- a repository name with a path component index.json, oci-layout or blobs would live inside another repository's
+//@ -- layout: it is refused before anything is built, registered or created for it (C16).  reservedName is defined by the
+//@ -- outcome of the one check in RepoGet
+//@ ghost func reservedName(s string) bool
 //@ func (d *dir) RepoGet(ctx context.Context, repoStr string) (repo Repo, err error)
 //@   requires [name-safe]{C16} safeRel(repoStr)
+//@   assume [reserved-check] after "stringsHasAny(strings.Split(repoStr": ret <==> reservedName(repoStr)
+//@   assert [reserved-name-never-registered]{C16} before "d.repos.Set(": !reservedName(repoStr)
+//@   -- ... so no repository object with such a name is ever in the store's cache (object invariant of the store: assumed
+//@   -- on entry, re-established here, the only place that adds to the cache), and a cache hit cannot serve one
+//@   requires invariant [no-reserved-name-registered] d.repos != nil && forall key: string :: (key in d.repos.entries) ==> !reservedName(key)
+//@   ensures [no-reserved-name-registered]{C16} uses(call.Cache.Set@1.others-untouched, call.Cache.Get@*, call.New@*, assert.reserved-name-never-registered) forall key: string :: (key in d.repos.entries) ==> !reservedName(key)
+//@   ensures [reserved-name-refused]{C16} reservedName(repoStr) ==> repo == nil && err != nil
 //@   fspath [inside-root]{C16} within(path, d.root)
 //@   assert [repo-dir-inside-root]{C16} before call Cache.Set#1: within(dr#2.path, d.root)
+//@   -- the number of open upload sessions of a repository is bounded (C08): the session cache is built with the configured limit
+//@   -- and expiry, each under its own condition
+//@   assert [session-limit-configured]{C08} before "cache.New[string, *dirRepoUpload]": (d.conf.Storage.GC.RepoUploadMax > 0 ==> arg0.Count == d.conf.Storage.GC.RepoUploadMax) &&
+//@             (d.conf.Storage.GC.GracePeriod > 0 ==> arg0.Age == d.conf.Storage.GC.GracePeriod)
 
 //@ func (m *mem) RepoGet(ctx context.Context, repoStr string) (repo Repo, err error)
 //@   requires [name-safe]{C16} safeRel(repoStr)
 //@   assert [repo-dir-inside-root]{C16} before call memRepo.repoInit#1: within(mr#2.path, m.conf.Storage.RootDir)
+//@   assert [session-limit-configured]{C08} before "cache.New[string, *memRepoUpload]": (m.conf.Storage.GC.RepoUploadMax > 0 ==> arg0.Count == m.conf.Storage.GC.RepoUploadMax) &&
+//@             (m.conf.Storage.GC.GracePeriod > 0 ==> arg0.Age == m.conf.Storage.GC.GracePeriod)
 
 //@ -- no other function of the package touches the file system
 //@ funcs * !dirRepo.* !dirRepoUpload.* !memRepo.* !dir.RepoGet
@@ -373,6 +399,12 @@ package store
 //@ -- a (digest, kind) pair is settled when it has been walked, is still on the work list, or cannot be read at all
 //@ pred queued(W, x, k) := exists p: int :: 0 <= p && p < len(W) && W[p].Digest == x && mtKind(W[p].MediaType) == k
 //@ pred settled(wd, W, x, k) := wd[keyOf(wd, x, k)] || queued(W, x, k) || !gcReadable(x)
+//@ -- the referrers response recorded for a subject x (if any) is settled / is on the work list
+//@ pred refSettled(sj, wd, W, x) := (x in sj) ==> settled(wd, W, sj[x].Digest, mtKind(sj[x].MediaType))
+//@ -- an index entry the policy retains whatever its age: it is not a referrers response, and it is tagged or untagged
+//@ -- collection is off (recent entries are retained too: that part is decided by the bounded stand-in, see DESIGN.md)
+//@ pred gcRoot(e, untagged) := types.subjOf(e) == "" && (types.tagOf(e) != "" || !untagged)
+//@ pred refQueued(sj, W, x) := (x in sj) ==> queued(W, sj[x].Digest, mtKind(sj[x].MediaType))
 
 //@ func repoGarbageCollect(repo Repo, conf config.Config, index types.Index, locked bool) (out types.Index, mod bool, err error)
 //@   requires [conf-defaulted] config.defaulted(conf)
@@ -380,7 +412,10 @@ package store
 //@   assume [readable-is-stable] after "repo.blobGet(d.Digest, locked)": (ret1 == nil) <==> gcReadable(d#2.Digest)
 //@   assume [index-decoded-once] after "Decode(&man)"#1: ret == nil && br != nil && br.of == d#2.Digest ==> len(man.Manifests) == gcIdxN(d#2.Digest) &&
 //@             (forall k: int :: 0 <= k && k < len(man.Manifests) ==> man.Manifests[k].Digest == gcIdxChild(d#2.Digest, k) &&
-//@                mtKind(man.Manifests[k].MediaType) == gcIdxChildKind(d#2.Digest, k))
+//@                mtKind(man.Manifests[k].MediaType) == gcIdxChildKind(d#2.Digest, k)) &&
+//@             (forall k: int :: {gcIdxChild(d#2.Digest, k)} 0 <= k && k < len(man.Manifests) ==> man.Manifests[k].Digest == gcIdxChild(d#2.Digest, k) &&
+//@                mtKind(man.Manifests[k].MediaType) == gcIdxChildKind(d#2.Digest, k)) &&
+//@             arr(man.Manifests) != arr(manifests)
 //@   assume [image-decoded-once] after "Decode(&man)"#2: ret == nil && br != nil && br.of == d#2.Digest ==> man#2.Config.Digest == gcImgConfig(d#2.Digest) &&
 //@             len(man#2.Layers) == gcImgN(d#2.Digest) &&
 //@             (forall k: int :: 0 <= k && k < len(man#2.Layers) ==> man#2.Layers[k].Digest == gcImgLayer(d#2.Digest, k)) &&
@@ -389,6 +424,12 @@ package store
 //@   assume [clean-1] after "br.Close()"#1: (err#4 == nil && ret == nil) <==> gcClean(d#2.Digest, 1)
 //@   assume [clean-2] after "br.Close()"#2: (err#4 == nil && ret == nil) <==> gcClean(d#2.Digest, 2)
 //@   assume [clean-0] after "br.Close()"#3: (ret == nil) <==> gcClean(d#2.Digest, 0)
+//@   -- loop 1 puts every such entry on the work list; the mark loop keeps it settled
+//@   loop 1,2,3,4: invariant [index-apart]{C05} arr(index.Manifests) != arr(manifests)
+//@   loop 1: invariant [roots-queued]{C05} uses(call.Descriptor.Copy@*, 1:index-apart) forall k: int :: 0 <= k && k <= rangeindex && k < len(index.Manifests) && gcRoot(index.Manifests[k], *conf.Storage.GC.Untagged) ==>
+//@             queued(manifests, index.Manifests[k].Digest, mtKind(index.Manifests[k].MediaType))
+//@   loop 2,3,4: invariant [roots-settled]{C05} uses(assume.*, call.MediaTypeIndex@*, call.MediaTypeImage@*, call.Descriptor.Copy@*, call.Repo.blobGet@*, 2:maps, 3:maps, 4:maps, 2:roots-settled, 3:roots-settled, 4:roots-settled, 1:roots-queued, 1:index-apart, 2:index-apart, 3:index-apart, 4:index-apart) forall k: int :: 0 <= k && k < len(index.Manifests) && gcRoot(index.Manifests[k], *conf.Storage.GC.Untagged) ==>
+//@             settled(walked, manifests, index.Manifests[k].Digest, mtKind(index.Manifests[k].MediaType))
 //@   loop 2,3,4: invariant [maps]{C05} seen != nil && walked != nil
 //@   loop 2,4: invariant [walked-is-marked]{C05} forall wk: walkKey :: walked[wk] ==> seen[wk.dig]
 //@   loop 2: invariant [image-config-marked]{C05} forall x: digest.Digest :: {gcImgConfig(x)} walked[keyOf(walked, x, 2)] && gcClean(x, 2) ==> seen[gcImgConfig(x)]
@@ -396,8 +437,29 @@ package store
 //@   -- while the layers of the image at hand are being marked, the two statements hold for every other image
 //@   loop 4: invariant [image-config-marked]{C05} forall x: digest.Digest :: {gcImgConfig(x)} x != d#2.Digest && walked[keyOf(walked, x, 2)] && gcClean(x, 2) ==> seen[gcImgConfig(x)]
 //@   loop 4: invariant [image-layers-marked]{C05} forall x: digest.Digest, j: int :: {gcImgLayer(x, j)} x != d#2.Digest && walked[keyOf(walked, x, 2)] && gcClean(x, 2) && 0 <= j && j < gcImgN(x) ==> seen[gcImgLayer(x, j)]
+//@   -- every child of a walked index is settled; while the children of the index at hand are being queued this holds for
+//@   -- every other index, and for the children queued so far
+//@   loop 2,4: invariant [index-children-settled]{C05} uses(assume.*, call.MediaTypeIndex@*, call.MediaTypeImage@*, call.Descriptor.Copy@*, call.Repo.blobGet@*, 2:maps, 3:maps, 4:maps, 2:index-children-settled, 3:index-children-settled, 4:index-children-settled, 3:children-queued, 3:children-named, 3:children-apart) forall x: digest.Digest, j: int :: {gcIdxChild(x, j)} walked[keyOf(walked, x, 1)] && gcClean(x, 1) && 0 <= j && j < gcIdxN(x) ==>
+//@             settled(walked, manifests, gcIdxChild(x, j), gcIdxChildKind(x, j))
+//@   loop 3: invariant [index-children-settled]{C05} uses(assume.*, call.MediaTypeIndex@*, call.MediaTypeImage@*, call.Descriptor.Copy@*, call.Repo.blobGet@*, 2:maps, 3:maps, 4:maps, 2:index-children-settled, 3:index-children-settled, 4:index-children-settled, 3:children-queued, 3:children-named, 3:children-apart) forall x: digest.Digest, j: int :: {gcIdxChild(x, j)} x != d#2.Digest && walked[keyOf(walked, x, 1)] && gcClean(x, 1) && 0 <= j && j < gcIdxN(x) ==>
+//@             settled(walked, manifests, gcIdxChild(x, j), gcIdxChildKind(x, j))
 //@   loop 3: invariant [children-queued]{C05} forall k: int :: 0 <= k && k <= rangeindex && k < len(man.Manifests) ==>
-//@             exists j: int :: 0 <= j && j < len(manifests) && manifests[j].Digest == man.Manifests[k].Digest
+//@             exists j: int :: 0 <= j && j < len(manifests) && manifests[j].Digest == man.Manifests[k].Digest && mtKind(manifests[j].MediaType) == mtKind(man.Manifests[k].MediaType)
+//@   loop 3: invariant [children-apart]{C05} arr(man.Manifests) != arr(manifests)
+//@   loop 3: invariant [children-named]{C05} len(man.Manifests) == gcIdxN(d#2.Digest) &&
+//@             (forall k: int :: 0 <= k && k < len(man.Manifests) ==> man.Manifests[k].Digest == gcIdxChild(d#2.Digest, k) && mtKind(man.Manifests[k].MediaType) == gcIdxChildKind(d#2.Digest, k)) &&
+//@             (forall k: int :: {gcIdxChild(d#2.Digest, k)} 0 <= k && k < len(man.Manifests) ==> man.Manifests[k].Digest == gcIdxChild(d#2.Digest, k) && mtKind(man.Manifests[k].MediaType) == gcIdxChildKind(d#2.Digest, k))
+//@   -- the referrers response of everything that was walked, and of the config and layers of every walked image, is settled
+//@   loop 2: invariant [referrers-settled]{C05} uses(assume.*, call.MediaTypeIndex@*, call.MediaTypeImage@*, call.Descriptor.Copy@*, call.Repo.blobGet@*, 2:maps, 3:maps, 4:maps, 2:referrers-settled, 3:referrers-settled, 4:referrers-settled) forall wk: walkKey :: walked[wk] && gcClean(wk.dig, wk.kind) ==> refSettled(subjects, walked, manifests, wk.dig)
+//@   loop 3,4: invariant [referrers-settled]{C05} uses(assume.*, call.MediaTypeIndex@*, call.MediaTypeImage@*, call.Descriptor.Copy@*, call.Repo.blobGet@*, 2:maps, 3:maps, 4:maps, 2:referrers-settled, 3:referrers-settled, 4:referrers-settled) forall wk: walkKey :: wk.dig != d#2.Digest && walked[wk] && gcClean(wk.dig, wk.kind) ==> refSettled(subjects, walked, manifests, wk.dig)
+//@   loop 2,3: invariant [config-referrers-settled]{C05} uses(assume.*, call.MediaTypeIndex@*, call.MediaTypeImage@*, call.Descriptor.Copy@*, call.Repo.blobGet@*, 2:maps, 3:maps, 4:maps, 2:config-referrers-settled, 3:config-referrers-settled, 4:config-referrers-settled, 4:config-referrer-queued, 4:layers-named) forall x: digest.Digest :: {gcImgConfig(x)} walked[keyOf(walked, x, 2)] && gcClean(x, 2) ==> refSettled(subjects, walked, manifests, gcImgConfig(x))
+//@   loop 2,3: invariant [layer-referrers-settled]{C05} uses(assume.*, call.MediaTypeIndex@*, call.MediaTypeImage@*, call.Descriptor.Copy@*, call.Repo.blobGet@*, 2:maps, 3:maps, 4:maps, 2:layer-referrers-settled, 3:layer-referrers-settled, 4:layer-referrers-settled, 4:layer-referrers-queued, 4:layers-named) forall x: digest.Digest, j: int :: {gcImgLayer(x, j)} walked[keyOf(walked, x, 2)] && gcClean(x, 2) && 0 <= j && j < gcImgN(x) ==>
+//@             refSettled(subjects, walked, manifests, gcImgLayer(x, j))
+//@   loop 4: invariant [config-referrers-settled]{C05} uses(assume.*, call.MediaTypeIndex@*, call.MediaTypeImage@*, call.Descriptor.Copy@*, call.Repo.blobGet@*, 2:maps, 3:maps, 4:maps, 2:config-referrers-settled, 3:config-referrers-settled, 4:config-referrers-settled, 4:config-referrer-queued, 4:layers-named) forall x: digest.Digest :: {gcImgConfig(x)} x != d#2.Digest && walked[keyOf(walked, x, 2)] && gcClean(x, 2) ==> refSettled(subjects, walked, manifests, gcImgConfig(x))
+//@   loop 4: invariant [layer-referrers-settled]{C05} uses(assume.*, call.MediaTypeIndex@*, call.MediaTypeImage@*, call.Descriptor.Copy@*, call.Repo.blobGet@*, 2:maps, 3:maps, 4:maps, 2:layer-referrers-settled, 3:layer-referrers-settled, 4:layer-referrers-settled, 4:layer-referrers-queued, 4:layers-named) forall x: digest.Digest, j: int :: {gcImgLayer(x, j)} x != d#2.Digest && walked[keyOf(walked, x, 2)] && gcClean(x, 2) && 0 <= j && j < gcImgN(x) ==>
+//@             refSettled(subjects, walked, manifests, gcImgLayer(x, j))
+//@   loop 4: invariant [config-referrer-queued]{C05} refQueued(subjects, manifests, man#2.Config.Digest)
+//@   loop 4: invariant [layer-referrers-queued]{C05} forall k: int :: 0 <= k && k <= rangeindex && k < len(man#2.Layers) ==> refQueued(subjects, manifests, man#2.Layers[k].Digest)
 //@   loop 4: invariant [layers-marked]{C05} (seen != nil) && (forall k: int :: 0 <= k && k <= rangeindex && k < len(man#2.Layers) ==> seen[man#2.Layers[k].Digest])
 //@   loop 4: invariant [config-marked]{C05} seen[man#2.Config.Digest]
 //@   -- the decoder filled a zero value: the layer list it allocated is not the work list
@@ -406,6 +468,20 @@ package store
 //@   loop 4: invariant [layers-named]{C05} len(man#2.Layers) == gcImgN(d#2.Digest) && man#2.Config.Digest == gcImgConfig(d#2.Digest) &&
 //@             (forall k: int :: 0 <= k && k < len(man#2.Layers) ==> man#2.Layers[k].Digest == gcImgLayer(d#2.Digest, k)) &&
 //@             (forall k: int :: {gcImgLayer(d#2.Digest, k)} 0 <= k && k < len(man#2.Layers) ==> man#2.Layers[k].Digest == gcImgLayer(d#2.Digest, k))
+//@   -- when the work list is empty the marked set is closed: every retained root and everything a walked manifest lists
+//@   -- has been walked itself (and so is marked), or cannot be read at all; the least set closed under the retention rules
+//@   -- of the statement is then contained in the marked set (Knaster-Tarski step, stated in DESIGN.md, not mechanised)
+//@   assert [closed-roots]{C05} uses(assume.*, 2:maps, 2:roots-settled) before "repo.blobList(locked)": forall k: int :: 0 <= k && k < len(index.Manifests) && gcRoot(index.Manifests[k], *conf.Storage.GC.Untagged) ==>
+//@             walked[keyOf(walked, index.Manifests[k].Digest, mtKind(index.Manifests[k].MediaType))] || !gcReadable(index.Manifests[k].Digest)
+//@   assert [closed-children]{C05} uses(assume.*, 2:maps, 2:index-children-settled) before "repo.blobList(locked)": forall x: digest.Digest, j: int :: {gcIdxChild(x, j)} walked[keyOf(walked, x, 1)] && gcClean(x, 1) && 0 <= j && j < gcIdxN(x) ==>
+//@             walked[keyOf(walked, gcIdxChild(x, j), gcIdxChildKind(x, j))] || !gcReadable(gcIdxChild(x, j))
+//@   assert [closed-referrers]{C05} uses(assume.*, 2:maps, 2:referrers-settled) before "repo.blobList(locked)": forall wk: walkKey :: walked[wk] && gcClean(wk.dig, wk.kind) && (wk.dig in subjects) ==>
+//@             walked[keyOf(walked, subjects[wk.dig].Digest, mtKind(subjects[wk.dig].MediaType))] || !gcReadable(subjects[wk.dig].Digest)
+//@   assert [closed-part-referrers]{C05} uses(assume.*, 2:maps, 2:config-referrers-settled, 2:layer-referrers-settled) before "repo.blobList(locked)":
+//@             (forall x: digest.Digest :: {gcImgConfig(x)} walked[keyOf(walked, x, 2)] && gcClean(x, 2) && (gcImgConfig(x) in subjects) ==>
+//@                walked[keyOf(walked, subjects[gcImgConfig(x)].Digest, mtKind(subjects[gcImgConfig(x)].MediaType))] || !gcReadable(subjects[gcImgConfig(x)].Digest)) &&
+//@             (forall x: digest.Digest, j: int :: {gcImgLayer(x, j)} walked[keyOf(walked, x, 2)] && gcClean(x, 2) && 0 <= j && j < gcImgN(x) && (gcImgLayer(x, j) in subjects) ==>
+//@                walked[keyOf(walked, subjects[gcImgLayer(x, j)].Digest, mtKind(subjects[gcImgLayer(x, j)].MediaType))] || !gcReadable(subjects[gcImgLayer(x, j)].Digest))
 //@   assert [removes-only-unmarked-blobs]{C05} before "blobDelete(d, locked)": !seen[d#3]
 //@   assert [removes-only-unmarked-entries]{C05} before call Index.RmDesc#2: !seen[d#3]
 //@   assert [removes-only-blobless-entries]{C05} before call Index.RmDesc#1: !blobExists[d#4]
@@ -434,6 +510,11 @@ package store
 //@   forbid [no-relock-while-locked]{C17} "repo.BlobDelete("
 //@   forbid [no-relock-while-locked]{C17} "repo.BlobGet("
 //@   ensures [already-stored-is-not-a-failure]{C17} err != types.ErrBlobExists
+//@   -- the clean-up after the conversion drops the fallback *tag*: an entry that shares the digest of a converted fallback
+//@   -- index (another tag on the same blob, the regenerated response when it is byte-identical) stays
+//@   -- (RmDesc with digest and tag removes the tag and keeps the digest, C18; what is passed is the fallback entry as it was
+//@   -- collected, annotations included, not just its digest)
+//@   assert [cleanup-drops-the-fallback-tag-only]{C17} before "index.RmDesc(": arg1 == d && arg1.Annotations == d.Annotations
 //@   -- every subject whose response had to be regenerated gets its index entry, also when the response blob was already
 //@   -- there (an interrupted conversion that is repeated): otherwise the fallback tag is dropped and the referrers are lost
 //@   loop 4: invariant [regenerated-responses-registered]{C17,C09} uses(4:regenerated-responses-registered) siteCount(Index.AddDesc, 1) == visitedCount
@@ -442,7 +523,7 @@ package store
 //@ -- handlers acknowledge with 201), leave the blob with an age not older than the start of the call, so the grace
 //@ -- period protects it until the manifest that needs it arrives
 //@ func (mru *memRepoUpload) Close() (err error)
-//@   ensures [ack-is-recent]{C05} err == nil ==> (digestNow(mru.d) in mru.mr.blobs) && mru.mr.blobs[digestNow(mru.d)] != nil &&
+//@   ensures [ack-is-recent]{C05,C01} err == nil ==> (digestNow(mru.d) in mru.mr.blobs) && mru.mr.blobs[digestNow(mru.d)] != nil &&
 //@             mru.mr.blobs[digestNow(mru.d)].m.mod >= old(clock())
 
 //@ -- C06: a repository whose collection fails does not end the pass: inside the loop over the repositories the only
@@ -489,6 +570,16 @@ package store
 //@   requires invariant [uploads-cache] uploadsInv(recv.uploads)
 //@   ensures [uploads-cache-kept]{C20} uploadsInv(recv.uploads)
 
+//@ -- C08: a session that no longer exists (cancelled, finished, expired, evicted) takes no more bytes: every Write looks
+//@ -- the session up first.  This is the per-call reduct of "expiry or cancel racing a write"; the race itself is schedules.
+//@ func (mru *memRepoUpload) Write(p []byte) (n int, err error)
+//@   ensures [gone-session-takes-no-bytes]{C08} !old(mru.sessionID in mru.mr.uploads.entries) ==> err != nil && n == 0
+//@ -- (directory store: a session leaves the cache only through delete(), which also closes the writer: object invariant,
+//@ -- assumed here; with it either guard - the look-up or the closed writer - is enough)
+//@ func (dru *dirRepoUpload) Write(p []byte) (n int, err error)
+//@   requires invariant [open-writer-means-live-session] dru.w != nil ==> (dru.sessionID in dru.dr.uploads.entries)
+//@   ensures [gone-session-takes-no-bytes]{C08} !old(dru.sessionID in dru.dr.uploads.entries) ==> err != nil && n == 0
+
 //@ funcs memRepoUpload.Write memRepoUpload.Close memRepoUpload.Cancel
 //@   requires invariant [uploads-cache] uploadsInv(recv.mr.uploads)
 
@@ -501,8 +592,12 @@ package store
 //@   requires invariant [annotations-owned-by-caller] types.addNoAlias(mr.index, desc)
 
 //@ func (dr *dirRepo) IndexInsert(desc types.Descriptor, opts []types.IndexOpt) (err error)
+//@   -- an index update removes no content: until the new index.json is in place the old one still names what it named
+//@   -- (C09, a crash between the two steps); superseded content is left to the collector
+//@   forbid [index-update-removes-no-content]{C09} "blobDelete("
+//@   forbid [index-update-removes-no-content]{C09} "os.Remove"
 //@   requires [one-kind]{C18} types.tagOf(desc) == "" || types.subjOf(desc) == ""
-//@   ensures [acknowledged-means-saved]{C09,C10} err == nil ==> renamedTo(pathJoin(dr.path, "index.json")) > old(renamedTo(pathJoin(dr.path, "index.json")))
+//@   ensures [acknowledged-means-saved]{C09,C10,C03} err == nil ==> renamedTo(pathJoin(dr.path, "index.json")) > old(renamedTo(pathJoin(dr.path, "index.json")))
 //@   requires invariant [annotations-owned-by-caller] types.addNoAlias(dr.index, desc)
 
 //@ -- the index read from disk is taken to be well-formed (see above): stated, open
@@ -516,4 +611,6 @@ package store
 //@   requires invariant [uploads-cache] uploadsInv(recv.uploads)
 
 //@ func (dr *dirRepo) IndexRemove(desc types.Descriptor) (err error)
-//@   ensures [acknowledged-means-saved]{C09,C10} err == nil ==> renamedTo(pathJoin(dr.path, "index.json")) > old(renamedTo(pathJoin(dr.path, "index.json")))
+//@   forbid [index-update-removes-no-content]{C09} "blobDelete("
+//@   forbid [index-update-removes-no-content]{C09} "os.Remove"
+//@   ensures [acknowledged-means-saved]{C09,C10,C03} err == nil ==> renamedTo(pathJoin(dr.path, "index.json")) > old(renamedTo(pathJoin(dr.path, "index.json")))
